@@ -228,6 +228,23 @@ pub fn c03(r: &mut Rng, tier: &str) -> Vec<Case> {
             cases.push(c);
         }
     }
+    // every row followed by (and, where it has operands, operating on) each of the opcodes programs most often
+    // have next: an instruction is one instruction whatever comes after it
+    for (page, op) in all_rows() {
+        for (j, nb) in NEXT_OPS.iter().enumerate() {
+            if quick(tier) && (j + op as usize) % 2 == 1 && j >= 8 {
+                continue;
+            }
+            let mut s = state_for(r, page, op);
+            followed_by(&mut s, page, *nb);
+            maybe_masked(r, &mut s, j);
+            let mut c = Case::new(format!("{}/next{}", tagof(page, op), j % 4));
+            c.key = tagof(page, op);
+            c.push(sbox(s), P_NONE);
+            c.push(Cmd::X, Proj { pc: true, sp: true, ..NONE });
+            cases.push(c);
+        }
+    }
     // self-targeting transfers: every pointer, the stacked word and nn equal to pc + {0, 1, 2, -1}
     for (page, op) in all_rows() {
         for (j, delta) in [0u16, 1, 2, 0xFFFF].iter().enumerate() {
@@ -512,6 +529,48 @@ pub fn c06(r: &mut Rng, tier: &str) -> Vec<Case> {
                 c.push(sbox(s), P_NONE);
                 c.push(Cmd::X, Proj { regs: true, sp: true, pc: true, ..NONE });
                 c.push(Cmd::D, p_mem());
+                cases.push(c);
+            }
+        }
+    }
+    // "every machine state" includes the interrupt machinery: every combination of IFF1, IFF2, mode, HALT,
+    // pending NMI and pending request (none / RST byte / any byte), with PC, SP and I at the edges
+    {
+        let reps = if quick(tier) { 3 } else { 40 };
+        for combo in 0..(2 * 2 * 3 * 2 * 2 * 3) {
+            for k in 0..reps {
+                let mut s = rand_state(r);
+                s.top = TOPS[(combo + k) % TOPS.len()];
+                s.iff1 = combo & 1 != 0;
+                s.iff2 = combo & 2 != 0;
+                s.im = ((combo / 4) % 3) as u8;
+                s.halt = (combo / 12) % 2 != 0;
+                s.nmi = (combo / 24) % 2 != 0;
+                let ik = (combo / 48) % 3;
+                s.int = match ik {
+                    0 => None,
+                    1 => Some(r.pick(&RST_OPS)),
+                    _ => Some(r.pick(&[0x00u8, 0xFF, 0xFE, 0x80, 0x7F, 0x01])),
+                };
+                s.regs[I] = r.pick(&[0x00u8, 0xFF, 0x80, 0x7F]);
+                match k % 3 {
+                    0 => s.pc = r.pick(&EDGE_ADDR),
+                    1 => s.sp = r.pick(&EDGE_ADDR),
+                    _ => {
+                        s.pc = r.pick(&EDGE_ADDR);
+                        s.sp = r.pick(&EDGE_ADDR);
+                    }
+                }
+                // mode 0 with a byte that is not a restart executes that byte as an instruction whose operands
+                // come from memory at PC: only "returns normally" is compared there
+                let free = s.im == 0 && ik == 2 && s.iff1 && !s.nmi;
+                let pj = if free { P_NONE } else { Proj { regs: true, sp: true, pc: true, ..NONE } };
+                let mut c = Case::new(format!("ctl/{}h{}n{}i{}m{}", combo & 3, s.halt as u8, s.nmi as u8, ik, s.im));
+                c.key = "ctl".into();
+                c.push(sbox(s), P_NONE);
+                c.push(Cmd::X, pj);
+                c.push(Cmd::Sync, P_NONE);
+                c.push(Cmd::X, pj);
                 cases.push(c);
             }
         }
@@ -1122,6 +1181,17 @@ fn ctl_grid(r: &mut Rng, tier: &str, want_nmi: bool, want_halt: Option<bool>) ->
                                 let first = r.pick(&[0x00u8, 0xED, 0xFB, 0xF3, 0x76, 0x3E, 0xC9]);
                                 let pc = s.pc;
                                 s.poke(pc, &[first, r.pick(&[0x45u8, 0x4D, 0x57, 0x5F, 0x00])]);
+                                if (b as usize / 8 + rep) % 3 == 1 {
+                                    // the interrupted program's next instruction is the very opcode the request
+                                    // supplies (mode 0) / the restart mode 1 substitutes, or an RST of its own
+                                    let same = match im {
+                                        1 => 0xFF,
+                                        _ if b & 0xC7 == 0xC7 => b,
+                                        _ => r.pick(&RST_OPS),
+                                    };
+                                    s.poke(pc, &[same]);
+                                    s.poke(pc.wrapping_add(1), &[same]);
+                                }
                                 if halt {
                                     s.poke(pc, &[0x76]);
                                 }
@@ -1461,7 +1531,30 @@ pub fn c15(r: &mut Rng, tier: &str) -> Vec<Case> {
             }
         }
     }
+    c15_next(r, &mut cases);
     cases
+}
+
+/// C15: every recognised row followed by each of the common next opcodes
+fn c15_next(r: &mut Rng, cases: &mut Vec<Case>) {
+    for page in [Page::Base, Page::CB] {
+        for op in 0..=255u8 {
+            if page == Page::Base && matches!(op, 0xCB | 0xDD | 0xED | 0xFD) {
+                continue;
+            }
+            for (j, nb) in NEXT_OPS.iter().enumerate() {
+                let mut s = state_for(r, page, op);
+                followed_by(&mut s, page, *nb);
+                let pc = s.pc;
+                let mut c = Case::new(format!("{}/next{}", tagof(page, op), j % 4));
+                c.key = tagof(page, op);
+                c.push(sbox(s), P_NONE);
+                c.push(Cmd::DA(pc), Proj { other: true, da_size_only: true, ..NONE });
+                c.push(Cmd::X, Proj { pc: true, ..NONE });
+                cases.push(c);
+            }
+        }
+    }
 }
 
 pub fn c16(r: &mut Rng, tier: &str) -> Vec<Case> {
